@@ -317,3 +317,22 @@ check(
                 "evaluated in extended precision; held on the evaluations counted in the evidence."),
     level_note="trusted: long double DFT and trigonometric functions; M is read from impz()",
 )
+
+check(
+    "C15",
+    runs=[dict(harness="C15_primes", flavour="plain")],
+    rule=("isprime, factor, nextprime, nextpow2, ispow2 for every n in [0,2^20] + one residue class of 4096-blocks up to 2^22 (quick) / every n in "
+          "[0,2^22] (thorough) against a sieve of Eratosthenes; all n within 512 (quick) / 4096 (thorough) of 2^16, 2^24, 2^31, 65521^2 and 2^32, "
+          "squares and products of two primes near 2^16, and 2e4 (quick) / 1e6 (thorough) random 32-bit arguments against deterministic "
+          "Miller-Rabin; primes(n) for all n<=600 and sampled n to 2^19 / 2^22 against the sieve prefix; nextpow2/ispow2 within 256 / 4096 of "
+          "every 2^k, k<=30, and INT_MAX. Every call runs under a logical step budget on the DSPLIB_VERIF counter (isprime/factor: "
+          "32*(sqrt(n)+64); nextprime: that times (gap+1); primes: 32*(pi(n)+1)*(sqrt(n)+64)). distinct = (function, argument)."),
+    exhaustive_subspaces={"quick": ["all n in [0, 2^20] for isprime/factor/nextprime/nextpow2/ispow2"], "thorough": ["all n in [0, 2^22] for isprime/factor/nextprime/nextpow2/ispow2"]},
+    min_distinct={"quick": 3000000, "thorough": 15000000},
+    technique="runtime monitor: sieve / Miller-Rabin oracle over exhaustive and boundary arguments, logical step-budget hook as termination oracle",
+    level_text=("Every argument of the exhaustive range and of the boundary windows is executed and compared with number-theoretic "
+                "references, with termination decided on a logical step counter rather than wall-clock; held on the arguments counted in "
+                "the evidence."),
+    level_note="trusted: the harness sieve and the deterministic Miller-Rabin base set {2,3,5,7,11} for 32-bit arguments; the step hook counts trial divisions / loop iterations",
+    assumptions=["nextprime is only judged where the answer is representable (n <= 4294967291); ispow2 only where 2^nextpow2(m) is representable (m <= 2^30)"],
+)
